@@ -11,6 +11,7 @@ import (
 type Ctx struct {
 	Batch   int
 	Journal *core.Journal
+	Out     string
 	Workers int
 }
 
